@@ -37,7 +37,8 @@ RULE = ('scenarios = cfg x tree edits x 1..4 (quick) boot entries with random pa
         'non-trivial = at least one edit after add_eltorito moves a boot file or the entry is non-default')
 LEVEL_TEXT = ('Lean 4 theorems: the validation entry checksums to zero for every platform id with key bytes 55 AA; catalog = 64 bytes + '
               '64 per section and fits one sector for <= 31 sections with 0x90/0x91 headers; entry fields at the El Torito offsets; '
-              'floppy sizes map to media 1/2/3. The catalog model is tied byte-for-byte to eltorito.py; load addresses, catalog '
+              'floppy sizes map to media 1/2/3; a recorded catalog (up to 31 sections, also when it fills its sector) is read back as recorded '
+              'whatever follows it on the image (catalog_parse_roundtrip). The catalog model is tied byte-for-byte to eltorito.py; load addresses, catalog '
               'files, boot info tables and rm_eltorito are decided by the independent reader per scenario.')
 LEVEL_NOTE = 'Trusted: Lean kernel; reader; scenario generator.'
 TECHNIQUE = 'Lean 4 proofs about the catalog model + byte-level correspondence + independent Lean El Torito reader'
